@@ -166,6 +166,7 @@ func cmdRun(args []string) {
 	logEv := fs.Bool("log", false, "print event logs")
 	maxSec := fs.Float64("maxsec", 0, "stop starting new runs after this many seconds")
 	noMin := fs.Bool("nomin", false, "do not minimise")
+	hashOnly := fs.Bool("hash", false, "print a hash of each run's event log and outcome digests")
 	fs.Parse(args)
 
 	start := time.Now()
@@ -181,10 +182,13 @@ func cmdRun(args []string) {
 		fmt.Printf("BEGIN seed=%d\n", sd)
 		plan := generate(*prop, sd, *tier)
 		before := raceLogSize()
-		res := execute(plan, execOpts{log: *logEv})
+		res := execute(plan, execOpts{log: *logEv || *hashOnly})
 		if *logEv {
 			fmt.Print(res.Log)
 			fmt.Print(res.Digest)
+		}
+		if *hashOnly {
+			fmt.Printf("HASH seed=%d %016x %016x events=%d\n", sd, hashString(res.Log), hashString(res.Digest), res.Events)
 		}
 		ws.absorb(*prop, res)
 		if i < 3 {
